@@ -65,6 +65,11 @@ func c12parse(p parsley.Parser, content []byte, before [][]byte, eval bool) (o c
 	fs, f, rd := c12place(content, before, c12order(before))
 	o.base = int(f.Pos(0))
 	o.errPos = -1
+	// the other files of the set are in use as well: render a position in each of them before this file is parsed
+	// (e.g. an earlier file failed to parse and its error was printed)
+	for p := 1; p < o.base; p += 1 + o.base/7 {
+		_ = fs.Position(parsley.Pos(p)).String()
+	}
 	ctx := parsley.NewContext(fs, rd)
 	defer func() {
 		o.calls = ctx.CallCount()
